@@ -281,6 +281,7 @@ def tasks(tier):
     ts += [('contracts.c12', f, ()) for f in ('pop_', 'popitem', 'setdefault', 'constructs_with_policy_none', 'found_if_present')]
     ts += [('contracts.c10', 'peekitem_task', ('C12', True)), ('contracts.c10', 'peekitem_task', ('C12', False)),
            ('contracts.iteration', 'iter_task', ('C12', True)), ('contracts.iteration', 'iter_task', ('C12', False))]
+    ts += [('contracts.traces', 'transact_block', ('C12',))]      # popitem / setdefault argue with 'one block is atomic'
     return ts
 
 
